@@ -126,15 +126,13 @@ pub fn any_f32_small() -> f32 {
 #[cfg(kani)]
 #[inline]
 pub fn any_f64_tiny() -> f64 {
-    let s: i8 = kani::any();
-    kani::assume(s >= -7 && s <= 7);
+    let s: i8 = (kani::any::<u8>() % 15) as i8 - 7;
     (s as f64) * 0.125
 }
 #[cfg(kani)]
 #[inline]
 pub fn any_f32_tiny() -> f32 {
-    let s: i8 = kani::any();
-    kani::assume(s >= -7 && s <= 7);
+    let s: i8 = (kani::any::<u8>() % 15) as i8 - 7;
     (s as f32) * 0.125
 }
 
@@ -1296,8 +1294,8 @@ macro_rules! c14_psk8_demod {
 #[inline]
 pub fn any_llr_dom() -> f64 {
     let s = any_i8m() as f64;
-    let e: u8 = kani::any();
-    kani::assume(e < 3);
+    // (no assume on the selector: every byte is a valid selector, which keeps neighbourhood replays valid)
+    let e: u8 = kani::any::<u8>() % 3;
     if e == 0 { s } else if e == 1 { s * 0.125 } else { s * 9.313225746154785e-10 }
 }
 
@@ -1546,7 +1544,7 @@ impl core::fmt::Write for ByteSink {
 
 #[macro_export]
 macro_rules! c18_name {
-    ($name:ident, $idx:expr, $unw:expr) => {
+    ($name:ident, $idx:expr, $unw:expr, [$($near:expr),*]) => {
         #[kani::proof]
         #[kani::unwind($unw)]
         fn $name() {
@@ -1562,7 +1560,23 @@ macro_rules! c18_name {
             let b = nm.as_bytes();
             let mut i = 0;
             while i < b.len() { assert!(sink.buf[i] == b[i]); i += 1; }
+            // concrete near misses of this name (case changes, padding, truncation) are rejected
+            $( assert!(<DecoderImplementation as core::str::FromStr>::from_str($near).is_err()); )*
             kani::cover!(sink.len > 5);
+        }
+    };
+}
+
+/// one concrete non-member string is rejected (kept minimal: one call, so that even a much heavier
+/// from_str implementation is still decided within the cap)
+#[macro_export]
+macro_rules! c18_reject {
+    ($name:ident, $s:expr, $unw:expr) => {
+        #[kani::proof]
+        #[kani::unwind($unw)]
+        fn $name() {
+            assert!(<DecoderImplementation as core::str::FromStr>::from_str($s).is_err());
+            kani::cover!(true);
         }
     };
 }
@@ -1595,46 +1609,57 @@ macro_rules! c18_valuelist {
 /// decisions of the *quantised* input, which exposes the working precision ($w: 64 | 32 | 8);
 /// (2) one full decode compared with the generic decoder built directly.
 #[macro_export]
-macro_rules! c18_pair {
-    ($name:ident, $stubs:ident, $impl:ident, $sched:ident, $arith:ty, $w:expr, $limit:expr, $hfn:ident, $n:expr, $xpos:expr, [$($wl:expr),*], [$($we:expr),*], $unw:expr) => {
+macro_rules! c18_pair_body {
+    ($impl:ident, $sched:ident, $arith:ty, $w:expr, $limit:expr, $hfn:ident, $n:expr, $xpos:expr, [$($wl:expr),*], [$($we:expr),*], $x:ident, $llrs:ident) => {{
+        const N: usize = $n;
+        let mut d1 = DecoderImplementation::$impl.build_decoder($hfn());
+        // (1) the width-witness frame violates a check whatever x is
+        let rest: [f64; N - 1] = [$($wl),*];
+        let mut wl = [0.0f64; N];
+        wl[0] = $x;
+        let mut i = 1;
+        while i < N { wl[i] = rest[i - 1]; i += 1; }
+        let r0 = d1.decode(&wl, 0);
+        let exp0: u8 = if $w == 64 { ($x <= 0.0) as u8 }
+            else if $w == 32 { (($x as f32) <= 0.0) as u8 }
+            else { ($crate::refmodels::quantize_spec($x) <= 0) as u8 };
+        let we: [u8; N - 1] = [$($we),*];
+        match &r0 {
+            Ok(_) => { assert!(false); }
+            Err(o) => {
+                assert!(o.iterations == 0 && o.codeword.len() == N);
+                assert!(o.codeword[0] == exp0);
+                let mut i = 1;
+                while i < N { assert!(o.codeword[i] == we[i - 1]); i += 1; }
+            }
+        }
+        // (2) one full decode vs the generic decoder of the documented arithmetic and schedule
+        let mut d2 = ldpc_toolbox::decoder::$sched::Decoder::new($hfn(), <$arith>::new());
+        let r1 = d1.decode(&$llrs, $limit);
+        let r2 = d2.decode(&$llrs, $limit);
+        assert!($crate::macros::same_output(&r1, &r2, N));
+        kani::cover!(r2.is_err());
+        kani::cover!(r2.is_ok());
+        kani::cover!(exp0 == 0);
+        core::mem::forget(d1); core::mem::forget(d2); core::mem::forget(r0); core::mem::forget(r1); core::mem::forget(r2);
+    }};
+}
+
+/// One harness for up to three factory rows (they share the 130 s tool overhead of the goto
+/// binary that `build_decoder` drags in).  Rows are separated by `;`.
+#[macro_export]
+macro_rules! c18_pairs {
+    ($name:ident, $stubs:ident, $limit:expr, $hfn:ident, $n:expr, $xpos:expr, [$($wl:expr),*], [$($we:expr),*], $unw:expr;
+     $($impl:ident, $sched:ident, $arith:ty, $w:expr);+) => {
         $crate::$stubs! { $unw,
         fn $name() {
-            const N: usize = $n;
+            const NN: usize = $n;
             let x = $crate::macros::any_f64_1e30();
             if $xpos { kani::assume(x > 0.0); }
-            let mut llrs = [0.0f64; N];
+            let mut llrs = [0.0f64; NN];
             let mut i = 0;
-            while i < N { llrs[i] = $crate::macros::any_llr_dom(); i += 1; }
-            let mut d1 = DecoderImplementation::$impl.build_decoder($hfn());
-            // (1) the width-witness frame violates a check whatever x is
-            let rest: [f64; N - 1] = [$($wl),*];
-            let mut wl = [0.0f64; N];
-            wl[0] = x;
-            let mut i = 1;
-            while i < N { wl[i] = rest[i - 1]; i += 1; }
-            let r0 = d1.decode(&wl, 0);
-            let exp0: u8 = if $w == 64 { (x <= 0.0) as u8 }
-                else if $w == 32 { ((x as f32) <= 0.0) as u8 }
-                else { ($crate::refmodels::quantize_spec(x) <= 0) as u8 };
-            let we: [u8; N - 1] = [$($we),*];
-            match &r0 {
-                Ok(_) => { assert!(false); }
-                Err(o) => {
-                    assert!(o.iterations == 0 && o.codeword.len() == N);
-                    assert!(o.codeword[0] == exp0);
-                    let mut i = 1;
-                    while i < N { assert!(o.codeword[i] == we[i - 1]); i += 1; }
-                }
-            }
-            // (2)
-            let mut d2 = ldpc_toolbox::decoder::$sched::Decoder::new($hfn(), <$arith>::new());
-            let r1 = d1.decode(&llrs, $limit);
-            let r2 = d2.decode(&llrs, $limit);
-            assert!($crate::macros::same_output(&r1, &r2, N));
-            kani::cover!(r2.is_err());
-            kani::cover!(r2.is_ok());
-            kani::cover!(exp0 == 0);
-            core::mem::forget(d1); core::mem::forget(d2); core::mem::forget(r0); core::mem::forget(r1); core::mem::forget(r2);
+            while i < NN { llrs[i] = $crate::macros::any_llr_dom(); i += 1; }
+            $( $crate::c18_pair_body!($impl, $sched, $arith, $w, $limit, $hfn, $n, $xpos, [$($wl),*], [$($we),*], x, llrs); )+
         }}
     };
 }
@@ -1725,8 +1750,201 @@ macro_rules! c02_encode_staircase {
                 assert!(!s);
                 i += 1;
             }
-            kani::cover!(cw[K + R - 1].is_one());
+            kani::cover!(cw[K].is_one());
             core::mem::forget(enc); core::mem::forget(cw);
         }
+    };
+}
+
+// =====================================================================================
+// C19 (wrapper logic only): the C API decoder/encoder objects behind the extern "C"
+// functions, driven through the verif-hooks wrappers with a checker-supplied scripted
+// decoder (any verdict, word, iteration count) -- the wrapper must be faithful for ANY decoder.
+// =====================================================================================
+pub const C19_MAXN: usize = 12;
+pub static mut C19_SEEN: [u64; C19_MAXN] = [0; C19_MAXN];
+pub static mut C19_SEEN_LEN: usize = 0;
+pub static mut C19_SEEN_ITER: usize = 0;
+pub static mut C19_CALLS: usize = 0;
+
+#[derive(Debug)]
+pub struct ScriptedDecoder {
+    pub ok: bool,
+    pub word: [u8; C19_MAXN],
+    pub n: usize,
+    pub iters: usize,
+}
+
+impl ldpc_toolbox::decoder::LdpcDecoder for ScriptedDecoder {
+    fn decode(&mut self, llrs: &[f64], max_iterations: usize)
+        -> Result<ldpc_toolbox::decoder::DecoderOutput, ldpc_toolbox::decoder::DecoderOutput> {
+        unsafe {
+            C19_CALLS += 1;
+            C19_SEEN_LEN = llrs.len();
+            C19_SEEN_ITER = max_iterations;
+            let mut i = 0;
+            while i < llrs.len() && i < C19_MAXN { C19_SEEN[i] = llrs[i].to_bits(); i += 1; }
+        }
+        let mut cw = Vec::with_capacity(self.n);
+        let mut i = 0;
+        while i < self.n { cw.push(self.word[i]); i += 1; }
+        let out = ldpc_toolbox::decoder::DecoderOutput { codeword: cw, iterations: self.iters };
+        if self.ok { Ok(out) } else { Err(out) }
+    }
+}
+
+#[macro_export]
+macro_rules! c19_decode {
+    ($name:ident, $fty:ty, $method:ident, $haspat:expr, $pat:expr, $p:expr, $bs:expr, $outlen:expr, $unw:expr) => {
+        #[kani::proof]
+        #[kani::unwind($unw)]
+        fn $name() {
+            const P: usize = $p;
+            const BS: usize = $bs;
+            const N: usize = P * BS;          // codeword length seen by the decoder
+            const OUT: usize = $outlen;       // output_len given by the C caller (<= N)
+            let pat: [bool; P] = $pat;
+            let mut trues = 0usize;
+            let mut k = 0;
+            while k < P { if pat[k] { trues += 1; } k += 1; }
+            let inlen = if $haspat { trues * BS } else { N };
+            // all inputs first
+            let ok: bool = kani::any();
+            let word: [u8; $crate::macros::C19_MAXN] = kani::any();
+            let max_it: u32 = kani::any();
+            let iters: usize = kani::any();
+            kani::assume(iters <= max_it as usize && iters <= i32::MAX as usize);
+            let llrs: [$fty; N] = kani::any();
+            let mut output = [0xAAu8; OUT];
+            let scripted = $crate::macros::ScriptedDecoder { ok, word, n: N, iters };
+            let punct = if $haspat { Some(Puncturer::new(&pat)) } else { None };
+            let mut d = VerifCDecoder::new(Box::new(scripted), punct);
+            let r = d.$method(&mut output, &llrs[..inlen], max_it);
+            // verdict mapping
+            if ok { assert!(r >= 0 && r as usize == iters); } else { assert!(r == -1); }
+            // leading bits of exactly the word the decoder returned
+            let mut i = 0;
+            while i < OUT { assert!(output[i] == word[i]); i += 1; }
+            // the decoder was called once, with the iteration limit and the depunctured LLRs
+            unsafe {
+                assert!($crate::macros::C19_CALLS == 1);
+                assert!($crate::macros::C19_SEEN_ITER == max_it as usize);
+                assert!($crate::macros::C19_SEEN_LEN == N);
+                let mut j = 0usize;
+                let mut k = 0;
+                while k < P {
+                    let mut t = 0;
+                    while t < BS {
+                        let seen = $crate::macros::C19_SEEN[k * BS + t];
+                        if !$haspat || pat[k] {
+                            // f32 input behaves as its f64 widening
+                            let e = (llrs[if $haspat { j * BS + t } else { k * BS + t }] as f64).to_bits();
+                            assert!(seen == e);
+                        } else {
+                            assert!(seen == 0);   // exact +0.0 at punctured positions
+                        }
+                        t += 1;
+                    }
+                    if pat[k] { j += 1; }
+                    k += 1;
+                }
+            }
+            kani::cover!(ok && r == 3);
+            kani::cover!(!ok);
+            core::mem::forget(d);
+        }
+    };
+}
+
+#[macro_export]
+macro_rules! c19_encode {
+    ($name:ident, $haspat:expr, $pat:expr, $p:expr, $r:expr, $k:expr, $unw:expr) => {
+        #[kani::proof]
+        #[kani::unwind($unw)]
+        fn $name() {
+            const P: usize = $p;
+            const R: usize = $r;
+            const K: usize = $k;
+            const N: usize = R + K;
+            let pat: [bool; P] = $pat;
+            let mut trues = 0usize;
+            let mut q = 0;
+            while q < P { if pat[q] { trues += 1; } q += 1; }
+            let bs = N / P;
+            let outlen = if $haspat { trues * bs } else { N };
+            let mut g = Array2::<GF2>::zeros((R, K));
+            let mut gb = [[false; K]; R];
+            let mut i = 0;
+            while i < R {
+                let mut j = 0;
+                while j < K { let x: bool = kani::any(); gb[i][j] = x; g[[i, j]] = if x { GF2::one() } else { GF2::zero() }; j += 1; }
+                i += 1;
+            }
+            let input: [u8; K] = kani::any();
+            let enc = VerifCEncoder::new(Encoder::verif_from_dense_generator(g), if $haspat { Some(Puncturer::new(&pat)) } else { None });
+            let mut output = [0xAAu8; N];
+            enc.encode(&mut output[..outlen], &input);
+            // expected systematic word: a byte equal to 1 is the bit 1, anything else the bit 0
+            let mut word = [0u8; N];
+            let mut j = 0;
+            while j < K { word[j] = if input[j] == 1 { 1 } else { 0 }; j += 1; }
+            let mut i = 0;
+            while i < R {
+                let mut s = 0u8;
+                let mut j = 0;
+                while j < K { if gb[i][j] { s ^= word[j]; } j += 1; }
+                word[K + i] = s;
+                i += 1;
+            }
+            // punctured: kept blocks in order
+            let mut o = 0usize;
+            let mut b = 0;
+            while b < P {
+                if !$haspat || pat[b] {
+                    let mut t = 0;
+                    while t < bs { assert!(output[o] == word[b * bs + t]); o += 1; t += 1; }
+                }
+                b += 1;
+            }
+            assert!(o == outlen);
+            kani::cover!(output[outlen - 1] == 1);
+            core::mem::forget(enc);
+        }
+    };
+}
+
+// =====================================================================================
+// C18 factory rows by *type identity*: the trait object built for a name has the same
+// vtable as the generic decoder of the documented (schedule, arithmetic) boxed directly, and a
+// different vtable from the other schedule / the sibling precision.  All concrete: one harness
+// covers several rows for the price of one build_decoder binary.
+// =====================================================================================
+#[inline]
+pub fn vtable_of(b: &Box<dyn ldpc_toolbox::decoder::LdpcDecoder>) -> usize {
+    let raw: *const dyn ldpc_toolbox::decoder::LdpcDecoder = &**b;
+    let parts: (usize, usize) = unsafe { core::mem::transmute(raw) };
+    parts.1
+}
+
+#[macro_export]
+macro_rules! c18_types {
+    ($name:ident, $stubs:ident, $unw:expr; $($impl:ident, $sched:ident, $arith:ty, $osched:ident);+) => {
+        $crate::$stubs! { $unw,
+        fn $name() {
+            $({
+                let built = DecoderImplementation::$impl.build_decoder(h_pair1x2());
+                let expected: Box<dyn LdpcDecoder> = Box::new(ldpc_toolbox::decoder::$sched::Decoder::new(h_pair1x2(), <$arith>::new()));
+                let other: Box<dyn LdpcDecoder> = Box::new(ldpc_toolbox::decoder::$osched::Decoder::new(h_pair1x2(), <$arith>::new()));
+                let vb = $crate::macros::vtable_of(&built);
+                let ve = $crate::macros::vtable_of(&expected);
+                let vo = $crate::macros::vtable_of(&other);
+                // the documented arithmetic and schedule ...
+                assert!(vb == ve);
+                // ... (sanity of the oracle: distinct types have distinct vtables)
+                assert!(ve != vo);
+                core::mem::forget(built); core::mem::forget(expected); core::mem::forget(other);
+            })+
+            kani::cover!(true);
+        }}
     };
 }
